@@ -13,7 +13,7 @@ import (
 
 func init() {
 	zv.Register(&zv.Prop{ID: "C18", Topic: "c18", Gen: gen, Exec: Exec,
-		Rule: "random Go struct types built with reflect.StructOf (nested structs/slices, optional/default/explicit/implicit/application/private/set/omitempty/string-kind tags, RawValue, *big.Int, OID, BitString, Flag, Enumerated, SET-named slices) with random values: Marshal compared with the model (bytes), strict Unmarshal of valid and mutated encodings compared with the model (value, rest); round trip + idempotence oracle on every in-domain value; time.Time stream (T3 only, not sent to the model): bare / struct / slice time fields with plain, utc, generalized, explicit/implicit/application/private tags (incl. tag numbers 23/24), optional; values on the years -1/0/1, 1949/1950/1951, 1999/2000, 2049/2050/2051, 2068/2069, 9999/10000 and the seconds around each window edge, zones of whole minutes / with seconds, fractional seconds; oracle = year outside 0..9999 rejected, reference encoder (expected UTCTime vs GeneralizedTime TLV), round trip to the second incl. zone offset, byte-identical re-marshal; hand-made and mutated UTCTime/GeneralizedTime contents decoded and compared with the harness reference parser (op tu); the generalized+IMPLICIT class (D26) is a sub-stream of its own (op tm26, emitted last); non-trivial = distinct case lines"})
+		Rule: "random Go struct types built with reflect.StructOf (nested structs/slices, optional/default/explicit/implicit/application/private/set/omitempty/string-kind tags, RawValue, *big.Int, OID, BitString, Flag, Enumerated, SET-named slices) with random values: Marshal compared with the model (bytes), strict Unmarshal of valid and mutated encodings compared with the model (value, rest); round trip + idempotence oracle on every in-domain value; every in-domain value is also sent to the decidable domain predicate InDomain of the Lean theorem (op d: the driver must answer `in`); time.Time stream (T3 only, not sent to the model): bare / struct / slice time fields with plain, utc, generalized, explicit/implicit/application/private tags (incl. tag numbers 23/24), optional; values on the years -1/0/1, 1949/1950/1951, 1999/2000, 2049/2050/2051, 2068/2069, 9999/10000 and the seconds around each window edge, zones of whole minutes / with seconds, fractional seconds; oracle = year outside 0..9999 rejected, reference encoder (expected UTCTime vs GeneralizedTime TLV), round trip to the second incl. zone offset, byte-identical re-marshal; hand-made and mutated UTCTime/GeneralizedTime contents decoded and compared with the harness reference parser (op tu); the generalized+IMPLICIT class (D26) is a sub-stream of its own (op tm26, emitted last); non-trivial = distinct case lines"})
 }
 
 // UnmarshalDump runs the real Unmarshal and renders (value, len(rest)) canonically.
@@ -152,6 +152,11 @@ func Exec(line string) zv.Out {
 		out.Go = ""
 	case "tu":
 		out = execTimeDecode(tag, unhx(arg), tagset)
+	case "d": // the harness' documented domain must lie inside the domain of the Lean theorem (driver prints in/out)
+		if InDomain(s, tag, BuildStr(s, t, arg), true) == "" {
+			out.Go = "in"
+			tagset["claimed-value-vs-proved-domain"] = true
+		}
 	case "u":
 		out.Go = UnmarshalDump(s, t, tag, unhx(arg))
 		if out.Go == "err" {
@@ -203,12 +208,18 @@ func emitCase(g *zv.Gen, s *Sch, tag string, wild bool, nmut int) {
 	g.Emitf("c18 m %s p=%s %s", sch, tag, val)
 	// encoding (by the real code) and its mutants for the decode stream
 	var der []byte
+	claimed := false
 	func() {
 		defer func() { recover() }()
 		t := s.Type()
 		v := BuildStr(s, t, val)
+		claimed = InDomain(s, tag, v, true) == ""
 		der, _ = asn1.MarshalWithParams(v.Interface(), tag)
 	}()
+	if claimed {
+		// every value for which the T3 oracle claims the property is also sent to the Lean domain predicate of the theorem
+		g.Emitf("c18 d %s p=%s %s", sch, tag, val)
+	}
 	if der == nil {
 		der = r.Bytes(r.Intn(6))
 	}
